@@ -103,6 +103,10 @@ def body_adaptive(case):
         feas2 = adaptive_lp(sv, B, neutral, d1 * 0.5, dr * 0.5, np.zeros(2))
         if feas2.status != 0:
             return labs + ["marginal-rejected"]
+        # every feasible pair needs an intensity scale above 1e4 (a target 1e-7 next to a baseline of 1): not the well-scaled regime
+        r_min = adaptive_lp(sv, B, neutral, d1 * 0.5, dr * 0.5, np.array([1.0, 0.0]))
+        if r_min.status == 0 and float(r_min.x[-2]) > 1e4:
+            return labs + ["extreme-scale-rejected"]
         raise Violation("adaptive:feasible-rejected", f"a feasible scale pair exists (e.g. {feas.x[-2:].tolist()}) but the call raised: {e}")
     X, scales, Bp = np.asarray(X), np.asarray(scales), np.asarray(Bp)
     check(X.shape == (size, sv.n) and scales.shape == (2,) and Bp.shape == B.shape, "adaptive:shape", f"{X.shape} {scales.shape} {Bp.shape}")
